@@ -37,6 +37,7 @@ fn base_case(rng: &mut Rng, pt: PixelType, sw: u32, sh: u32, dw: u32, dh: u32) -
         alpha: rng.chance(1, 2),
         sbuf: random_comps(rng, pt, (sw * sh) as usize, mode),
         dynamic: false,
+        custom: None,
     }
 }
 
@@ -161,6 +162,15 @@ pub fn gen_c05(out: &mut Out, seed: u64, thorough: bool) {
                 1 => case.crop = CropSpec::Box(-1.0, 0.0, 1.0, 1.0),
                 _ => case.crop = CropSpec::Box(0.0, 0.0, 0.0, 1.0),
             }
+        }
+        if i % 97 == 5 && pt_kind(pt) == Kind::U8 {
+            // recorded finding F18: a custom kernel whose weights all vanish on a one-pixel-wide 8-bit source
+            // (ring kernel) makes the intermediate image zero pixels wide; the second pass then writes nothing
+            let c = Custom::Lobes(0.0, -1.0);
+            case = base_case(&mut rng, pt, 1, 5, 3, 4);
+            case.custom = Some(c);
+            case.alg = AlgSpec::custom(c, 0, 1);
+            case.alpha = false;
         }
         let sbefore = case.sbuf.clone();
         let got = run_case(&case, 0xA5);
